@@ -14,7 +14,7 @@ EXTENDS JoseDefs, TLC, Json
 
 CONSTANTS Dev, Family
 DevNames == {"CritNotChecked", "StrictIgnoredOnConsume", "CheckMoreNotPassed", "RequiredCustomIgnored",
-             "B64CritNotRequired", "BoolIsInt", "TypesUncheckedInJson", "StopAtFirstUsable", "StaleHeaderSnapshot"}
+             "B64CritNotRequired", "BoolIsInt", "TypesUncheckedInJson", "StopAtFirstUsable", "StaleHeaderSnapshot", "CallerOverrideIgnored"}
 ASSUME Dev \subseteq DevNames
 
 JT == {"absent", "str_ok", "str_bad", "int_pos", "int_zero", "int_neg", "float", "true", "false", "null",
@@ -38,12 +38,14 @@ SideOf(m) == IF m \in {"jws", "jws7797"} THEN "jws" ELSE "jwe"
 SersOf(m) == CASE m = "jws" -> {"compact", "flattened", "general"} [] m = "jws7797" -> {"compact", "flattened"}
                [] OTHER -> {"compact", "flattened", "general"}
 
-CustomP(kind) == IF kind = "none" THEN {} ELSE {HP("custom", "int", kind = "req")}
+\* caller registrations: a new name "custom" (int, optional or required), or the standard name "cty" re-registered as an int -
+\* the caller's entry replaces the standard one of the same name
+CustomP(kind) == CASE kind = "none" -> {} [] kind = "cty_int" -> {HP("cty", "int", FALSE)} [] OTHER -> {HP("custom", "int", kind = "req")}
 \* (tables: TLC evaluates a constant definition once; the operators below are looked up several times per state)
-Customs == {"none", "opt", "req"}
+Customs == {"none", "opt", "req", "cty_int"}
+StdRegistry(m) == CASE m = "jws" -> JwsHeader [] m = "jws7797" -> Jws7797Header [] OTHER -> JweHeader \cup AlgHeader(m)
 RegistryDef(m, custom) ==
-  (CASE m = "jws" -> JwsHeader [] m = "jws7797" -> Jws7797Header [] OTHER -> JweHeader \cup AlgHeader(m))
-  \cup CustomP(custom)
+  {h \in StdRegistry(m) : h.name \notin {c.name : c \in CustomP(custom)}} \cup CustomP(custom)
 RegistryT == [m \in Modes |-> [cu \in Customs |-> RegistryDef(m, cu)]]
 Registry(m, custom) == RegistryT[m][custom]
 RegNamesT == [m \in Modes |-> [cu \in Customs |-> {h.name : h \in RegistryT[m][cu]}]]
@@ -136,7 +138,7 @@ FocusParams(m) == RegNames(m, "opt") \cup {"xyz", "b64", "epk", "p2c", "iv", "ki
 InitCase(m) ==
   \E p \in FocusParams(m) : \E op \in {"produce", "consume"}, ser \in SersOf(m) : \E pos \in Positions(m, ser, p) :
     \E strict \in (IF p \in {"xyz", "custom", "b64", "epk"} THEN BOOLEAN ELSE {TRUE}),
-       custom \in (IF p \in {"custom", "xyz"} THEN {"none", "opt", "req"} ELSE {"none"}),
+       custom \in (IF p \in {"custom", "xyz"} THEN {"none", "opt", "req"} ELSE IF p = "cty" THEN {"none", "cty_int"} ELSE {"none"}),
        c \in JT, rcp \in RcpShapes(m, op, ser, pos),
        crit \in (IF p \in {"b64", "custom", "typ", "xyz"} THEN CritShapes ELSE {"absent"}) :
       case = Case(m, op, ser, strict, custom, p, c, pos, crit, rcp)
@@ -170,15 +172,20 @@ CheckCrit ==
 CheckB64 ==
   /\ pc = "b64"
   /\ IF "B64CritNotRequired" \notin Dev /\ B64NeedsCrit(case) THEN Fail ELSE Goto("registry")
+\* the registry the code consults (deviation: a caller's entry for a standard name loses against the standard entry)
+RegistryO(m, custom) ==
+  IF "CallerOverrideIgnored" \in Dev THEN StdRegistry(m) \cup {c \in CustomP(custom) : c.name \notin {h.name : h \in StdRegistry(m)}}
+  ELSE Registry(m, custom)
+ParamOfO(m, custom, n) == CHOOSE h \in RegistryO(m, custom) : h.name = n
 \* validate_registry_header: required members, then types
 TypeOkO(ty, c) == TypeOk(ty, c) \/ ("BoolIsInt" \in Dev /\ ty = "int" /\ c \in {"true", "false"})
 CheckRegistry ==
   /\ pc = "registry"
-  /\ LET base == Registry(case.mode, case.custom) \ AlgHeaderT[case.mode]
+  /\ LET base == RegistryO(case.mode, case.custom) \ AlgHeaderT[case.mode]
          missing == \E h \in base : h.required /\ ~Present(case, h.name)
                       /\ ~("RequiredCustomIgnored" \in Dev /\ h.name = "custom")
          illtyped == /\ case.c # "absent" /\ case.p \in {h.name : h \in base} /\ case.p # "crit"
-                     /\ ~TypeOkO(ParamOf(case.mode, case.custom, case.p).type, case.c)
+                     /\ ~TypeOkO(ParamOfO(case.mode, case.custom, case.p).type, case.c)
                      /\ ~("TypesUncheckedInJson" \in Dev /\ case.ser # "compact" /\ case.pos # "protected")
      IN IF missing \/ illtyped THEN Fail ELSE Goto("more")
 \* JWE: the algorithm's more_header_registry (required only with check_more, i.e. when consuming)
@@ -188,7 +195,7 @@ CheckMore ==
          missing == /\ case.op = "consume" /\ "CheckMoreNotPassed" \notin Dev
                     /\ \E h \in more : h.required /\ ~Present(case, h.name)
          illtyped == /\ case.c # "absent" /\ case.p \in {h.name : h \in more}
-                     /\ ~TypeOkO(ParamOf(case.mode, case.custom, case.p).type, case.c)
+                     /\ ~TypeOkO(ParamOfO(case.mode, case.custom, case.p).type, case.c)
      IN IF missing \/ illtyped THEN Fail ELSE Goto("strict")
 CheckStrict ==
   /\ pc = "strict"
